@@ -43,25 +43,31 @@ def demand_case(seed):
     prev = "R"
     for j in range(rnd.randint(1, 3)):
         name = "J%d" % j
-        dem = [{"base": rnd.randint(1, 16) * 0.0005, "pat": rnd.choice(list(pats) + [""])} for _ in range(rnd.randint(1, 3))]
-        wn.add_junction(name, base_demand=dem[0]["base"], demand_pattern=dem[0]["pat"] or None, elevation=5.0)
+        dem = [{"base": rnd.randint(1, 16) * 0.0005, "pat": rnd.choice(list(pats) + [""]), "cat": rnd.choice(["", "c", "d"])}
+               for _ in range(rnd.randint(1, 3))]
+        wn.add_junction(name, base_demand=dem[0]["base"], demand_pattern=dem[0]["pat"] or None, elevation=5.0,
+                        demand_category=dem[0]["cat"] or None)
         for e in dem[1:]:
-            wn.get_node(name).add_demand(e["base"], e["pat"] or None, "c")
+            wn.get_node(name).add_demand(e["base"], e["pat"] or None, e["cat"] or None)
         wn.add_pipe("p%d" % j, prev, name, length=200.0, diameter=0.4, roughness=120)
         prev = name
-        juncs.append({"name": name, "dem": [{"base": num(e["base"]), "pat": e["pat"]} for e in dem]})
+        juncs.append({"name": name, "dem": [{"base": num(e["base"]), "pat": e["pat"], "cat": e["cat"]} for e in dem]})
     dur = Pat * rnd.randint(3, 12)
     wn.options.time.duration = dur
     out = {"kind": "demand", "Pat": Pat, "PatStart": PatStart, "DM": num(DM),
            "patterns": {k: [num(x) for x in v] for k, v in pats.items()}, "juncs": juncs, "seed": seed,
-           "R": num(0.00000876157), "lens": sorted(len(v) for v in pats.values())}
+           "R": num(0.00000876157), "lens": sorted(len(v) for v in pats.values()), "cat": rnd.choice(["c", "d"])}
     try:
         ed = w.metrics.expected_demand(wn)
         out["times"] = [int(t) for t in ed.index]
         avg = w.metrics.average_expected_demand(wn)
         pop = w.metrics.population(wn)
+        edc = w.metrics.expected_demand(wn, category=out["cat"])
+        avgc = w.metrics.average_expected_demand(wn, category=out["cat"])
         out["obs"] = {"expected": {j["name"]: [num(float(x)) for x in ed[j["name"]]] for j in juncs},
                       "avg": {j["name"]: num(float(avg[j["name"]])) for j in juncs},
+                      "expected_cat": {j["name"]: [num(float(x)) for x in edc[j["name"]]] for j in juncs},
+                      "avg_cat": {j["name"]: num(float(avgc[j["name"]])) for j in juncs},
                       "pop": {j["name"]: int(pop[j["name"]]) for j in juncs}}
         # C20.matches_simulator: demand delivered by WNTRSimulator in DD mode at the same times
         import warnings
